@@ -68,6 +68,79 @@ class SList:
             (', ...' if self.opaque_tail and not self.tail else '') + ']'
 
 
+class LazyGen(SList):
+    """A generator expression over an enumerated source: its elements are computed when they are asked for (next, any / all, a `for`
+    loop, another generator expression reading it), one at a time and at most once - what is never asked for is never evaluated.
+    Anything that needs the whole sequence (`.items`) drains what is left."""
+
+    def __init__(self, ex, node, env, source):
+        self._ex, self._node, self._env, self._source = ex, node, env, source
+        self._pos = 0
+        self._rest = None
+        SList.__init__(self, kind='gen')
+
+    def pull(self):
+        """-> (True, value) for the next element, (False, None) when exhausted."""
+        if self._rest is not None:
+            if self._rest:
+                return True, self._rest.pop(0)
+            return False, None
+        gen = self._node.generators[0]
+        while True:
+            if isinstance(self._source, LazyGen):
+                ok, it = self._source.pull()
+                if not ok:
+                    return False, None
+            else:
+                if self._pos >= len(self._source):
+                    return False, None
+                it = self._source[self._pos]
+                self._pos += 1
+            env2 = dict(self._env)
+            self._ex.bind(gen.target, it, env2)
+            if all(self._ex.truth(self._ex.ev(c, env2), c) for c in gen.ifs):
+                return True, self._ex.ev(self._node.elt, env2)
+
+    @property
+    def items(self):
+        if self._rest is None:
+            rest = []
+            while True:
+                ok, v = self.pull()
+                if not ok:
+                    break
+                rest.append(v)
+            self._rest = rest
+        return self._rest
+
+    @items.setter
+    def items(self, value):
+        if value:
+            self._rest = list(value)
+
+    def __repr__(self):
+        return f'<generator {ast.unparse(self._node)[:60]}>'
+
+
+class SeqIter(LazyGen):
+    """iter(<enumerated sequence>): hands out the elements one by one, each once."""
+
+    def __init__(self, items):
+        self._pos = 0
+        self._rest = list(items)
+        SList.__init__(self, kind='gen')
+
+    def __repr__(self):
+        return f'<iterator over {self._rest}>'
+
+
+def is_key(k):
+    """A value the interpreter can use as a dictionary key: constants, opaque symbols, and tuples of those."""
+    if k is None or isinstance(k, (str, int, bool, Sym)):
+        return True
+    return isinstance(k, T) and k.op == 'tuple' and all(is_key(x) for x in k.args)
+
+
 def show(v):
     if isinstance(v, T):
         a = v.args
@@ -262,10 +335,18 @@ class Exec:
         key = T('item', (base, idx))
         if key in self.heap:
             return self.heap[key]
-        if isinstance(base, SList) and base.kind == 'dict' and not base.opaque_tail and isinstance(idx, (str, int, bool, Sym)):
+        if isinstance(base, SList) and base.kind == 'dict' and not base.opaque_tail and is_key(idx):
             for k, v in base.items:
                 if k == idx:
                     return v
+            default = getattr(base, 'default', None)
+            if default is not None:
+                # collections.defaultdict: a missing key is created with the factory's value
+                v = {'list': lambda: SList(), 'set': lambda: SList(kind='set'), 'dict': lambda: SList(kind='dict'),
+                     'int': lambda: 0, 'str': lambda: ''}[default]()
+                base.items = base.items + [(idx, v)]
+                self.events.append(('mutate', base.id, 'setitem', (idx,), (('value', v),)))
+                return v
             raise Raise('KeyError', (idx,))
         if isinstance(idx, int) and not isinstance(idx, bool):
             if isinstance(base, SList) and not base.opaque_tail and -len(base.items) <= idx < len(base.items):
@@ -432,11 +513,16 @@ class Exec:
                 return {'<': l < r, '<=': l <= r, '>': l > r, '>=': l >= r}[op]
             return T('cmp', (op, l, r))
         if op in ('in', 'not in'):
-            if isinstance(r, SList) and r.kind == 'dict' and not r.opaque_tail and isinstance(l, conc + (Sym,)):
+            if isinstance(r, SList) and r.kind == 'dict' and not r.opaque_tail and is_key(l):
                 res = any(k == l for k, _ in r.items)
                 return res if op == 'in' else not res
             if isinstance(r, SList) and not r.opaque_tail and all(isinstance(x, conc) for x in r.items) and isinstance(l, conc):
                 res = l in r.items
+                return res if op == 'in' else not res
+            if isinstance(r, SList) and not r.opaque_tail and not r.tail and r.kind != 'dict' and isinstance(l, Sym) \
+                    and all(isinstance(x, Sym) for x in r.items):
+                # symbols are opaque values, equal only to themselves (as for ==); a symbol against a constant stays undecided
+                res = any(x == l for x in r.items)
                 return res if op == 'in' else not res
             if isinstance(r, T) and r.op == 'tuple' and all(isinstance(x, conc) for x in r.args) and isinstance(l, conc):
                 res = l in r.args
@@ -447,6 +533,12 @@ class Exec:
     def _comp(self, e, env, elt, kind):
         gen = e.generators[0]
         seq = self.ev(gen.iter, env)
+        if kind == 'gen' and len(e.generators) == 1 and isinstance(e, ast.GeneratorExp):
+            src = seq if isinstance(seq, LazyGen) else self.iterate(seq)
+            if src is not None:
+                lg = LazyGen(self, e, env, src)
+                lg.source = seq
+                return lg
         out = SList(kind=kind)
         items = self.iterate(seq)
         if items is not None and len(e.generators) > 1:
@@ -600,6 +692,10 @@ class Exec:
             return getattr(recv, attr)()
         if isinstance(recv, str) and attr == 'split' and not kwargs and all(isinstance(a, str) for a in args) and len(args) <= 1:
             return SList(recv.split(*args))
+        if fname in ('collections.defaultdict',) :
+            b = self.builtin('collections.defaultdict', args, kwargs, node, env)
+            if b is not NotImplemented:
+                return b
         # builtins on modelled values
         if isinstance(node.func, ast.Name) and node.func.id not in env:
             b = self.builtin(node.func.id, args, kwargs, node, env)
@@ -701,6 +797,12 @@ class Exec:
                     if x not in items:
                         items.append(x)
                 return SList(items, kind='set')
+            if name == 'iter' and isinstance(a, LazyGen):
+                return a
+            if name == 'iter' and ((isinstance(a, SList) and not a.opaque_tail and a.kind != 'dict') or (isinstance(a, T) and a.op == 'tuple')):
+                it = SeqIter(a.items if isinstance(a, SList) else a.args)
+                it.source = a
+                return it
             if name in ('list', 'tuple', 'iter') and isinstance(a, SList):
                 if name == 'tuple' and not a.opaque_tail:
                     return T('tuple', tuple(a.items))
@@ -732,10 +834,30 @@ class Exec:
                 if all(type(k) is int for k in keys) or all(type(k) is str for k in keys):
                     order = sorted(range(len(items)), key=lambda i: keys[i], reverse=rev)
                     return SList([items[i] for i in order])
+        if name in ('defaultdict', 'collections.defaultdict') and len(args) == 1 and not kwargs and isinstance(args[0], T) \
+                and args[0].op == 'global' and args[0].args[0] in ('list', 'int', 'set', 'dict', 'str'):
+            d = SList(kind='dict')
+            d.default = args[0].args[0]
+            return d
+        if name in ('sum', 'min', 'max') and len(args) == 1 and not kwargs:
+            items = self.iterate(args[0])
+            if items is not None and all(type(x) is int for x in items) and (items or name == 'sum'):
+                return {'sum': sum, 'min': min, 'max': max}[name](items)
+        if name == 'sum' and len(args) == 2 and not kwargs and type(args[1]) is int:
+            items = self.iterate(args[0])
+            if items is not None and all(type(x) is int for x in items):
+                return sum(items, args[1])
         if name == 'range' and 1 <= len(args) <= 2 and all(type(a) is int for a in args):
             return SList(list(range(*args)))
         if name == 'enumerate' and len(args) == 1:
             return T('call', ('enumerate', args, ()))
+        if name in ('any', 'all') and len(args) == 1 and isinstance(args[0], LazyGen):
+            while True:
+                ok, v = args[0].pull()
+                if not ok:
+                    return name == 'all'
+                if self.truth(v, node) == (name == 'any'):
+                    return name == 'any'
         if name in ('any', 'all') and len(args) == 1:
             a = args[0]
             if isinstance(a, SList) and not a.opaque_tail:
@@ -759,6 +881,13 @@ class Exec:
                     else:
                         out.append(T('call', (gname(f), (it,), ())))
                 return SList(out, kind='gen')
+        if name == 'next' and len(args) in (1, 2) and isinstance(args[0], LazyGen):
+            ok, v = args[0].pull()
+            if ok:
+                return v
+            if len(args) == 2:
+                return args[1]
+            raise Raise('StopIteration', ())
         if name == 'next' and len(args) in (1, 2) and isinstance(args[0], SList) and not args[0].opaque_tail and args[0].kind != 'dict':
             if args[0].items:
                 return args[0].items[0]
@@ -810,6 +939,37 @@ class Exec:
                 lst.tail.append(a)
             self.events.append(('extend', lst.id, a))
             return None
+        concrete = not lst.opaque_tail and not lst.tail and lst.origin is None and lst.segs is None and lst.kind in ('list',)
+        if concrete and not kwargs:
+            if attr == 'reverse' and not args:
+                lst.items = list(reversed(lst.items))
+                self.events.append(('mutate', lst.id, 'reverse', (), ()))
+                return None
+            if attr == 'insert' and len(args) == 2 and type(args[0]) is int:
+                items = list(lst.items)
+                items.insert(args[0], args[1])
+                lst.items = items
+                self.events.append(('mutate', lst.id, 'insert', tuple(args), ()))
+                return None
+            if attr == 'clear' and not args:
+                lst.items = []
+                self.events.append(('mutate', lst.id, 'clear', (), ()))
+                return None
+            if attr == 'copy' and not args:
+                return SList(list(lst.items))
+            if attr in ('index', 'count', 'remove') and len(args) == 1 and all(
+                    isinstance(x, (str, int, bool, Sym, type(None))) for x in list(lst.items) + [args[0]]):
+                if attr == 'count':
+                    return sum(1 for x in lst.items if x == args[0])
+                if args[0] not in lst.items:
+                    raise Raise('ValueError', (args[0],))
+                if attr == 'index':
+                    return lst.items.index(args[0])
+                items = list(lst.items)
+                items.remove(args[0])
+                lst.items = items
+                self.events.append(('mutate', lst.id, 'remove', tuple(args), ()))
+                return None
         if attr in ('sort', 'reverse', 'insert', 'pop', 'remove', 'clear'):
             self.events.append(('mutate', lst.id, attr, args, kwargs))
             if attr == 'pop' and len(args) <= 1 and lst.items and not lst.opaque_tail and not lst.tail and lst.kind == 'list' \
@@ -827,13 +987,13 @@ class Exec:
                 return SList([T('tuple', (k, v)) for k, v in lst.items])
             return SList([k if attr == 'keys' else v for k, v in lst.items])
         if attr == 'get' and lst.kind == 'dict' and not lst.opaque_tail and len(args) in (1, 2) \
-                and isinstance(args[0], (str, int, bool, type(None), Sym)):
+                and is_key(args[0]):
             for k, v in lst.items:
                 if k == args[0]:
                     return v
             return args[1] if len(args) == 2 else None
         if attr == 'get' and lst.kind == 'dict' and not lst.opaque_tail and len(args) in (1, 2) and isinstance(args[0], T) \
-                and all(isinstance(k, (str, int, bool)) for k, _ in lst.items):
+                and not is_key(args[0]) and all(isinstance(k, (str, int, bool)) for k, _ in lst.items):
             # a computed key into a fully known table: one case per distinct value (the key is one of the keys giving it), else default
             groups = []
             for k, v in lst.items:
@@ -1055,7 +1215,7 @@ class Exec:
                     self.bind(x, items[i] if items is not None else self.unpack(v, i, len(t.elts)), env, store_event)
         elif isinstance(t, ast.Subscript) and not isinstance(t.slice, ast.Slice) and isinstance(self.ev(t.value, env), SList) \
                 and self.ev(t.value, env).kind == 'dict' and not self.ev(t.value, env).opaque_tail \
-                and isinstance(self.ev(t.slice, env), (str, int, bool, Sym)):
+                and is_key(self.ev(t.slice, env)):
             d, k = self.ev(t.value, env), self.ev(t.slice, env)
             if any(a == k for a, _ in d.items):
                 d.items = [(a, v if a == k else b) for a, b in d.items]      # an existing key keeps its place
@@ -1131,6 +1291,23 @@ class Exec:
                 self.inline(target, recv, args, kwargs, consumer=consumer)
             except _GenStop:
                 broke = True
+            if not broke and st.orelse:
+                self.block(st.orelse, env)
+            return
+        if isinstance(seq, LazyGen):
+            broke = False
+            while True:
+                ok, it = seq.pull()
+                if not ok:
+                    break
+                self.bind(st.target, it, env)
+                try:
+                    self.block(st.body, env)
+                except Continue:
+                    continue
+                except Break:
+                    broke = True
+                    break
             if not broke and st.orelse:
                 self.block(st.orelse, env)
             return
